@@ -83,7 +83,8 @@ def main(argv):
         return 0 if ok else 2
     _reexec_with_hashseed()
     os.environ['MAKI_NAGE_RXSCI_VERIF'] = '1'
-    if not _bootstrap():
+    thorough = 'thorough' in argv or (os.environ.get('VERIF_TIER') == 'thorough' and '--tier' not in argv)
+    if not _bootstrap(need_atheris=(cmd == 'check' and thorough)):
         sys.stderr.write('HARNESS ERROR: cannot install hypothesis offline\n')
         return 2
     _use_repo()
